@@ -248,7 +248,7 @@ def run_job(job, unit_c, workdir, incdirs):
                                             file=loc.get('file', ''), line=loc.get('line', ''), function=loc.get('function', ''),
                                             backend=be_name))
         errs = [o for o in gres['obligations'] if o['status'] not in ('SUCCESS', 'FAILURE')]
-        if errs and not gres['reason']:
+        if errs and not gres['reason'] and not any(o['status'] == 'FAILURE' and o['description'] != 'canary' for o in gres['obligations']):
             gres['reason'] = 'back end %s returned status %s for %s' % (be_name, errs[0]['status'], errs[0]['name'])
         got = set(o['name'] for o in gres['obligations'])
         if got != want:
